@@ -322,6 +322,53 @@ fn proven_sample(run: &Run, template: &Proof) {
     });
 }
 
+
+/// The estimators are functions of (parameters, collision resistance) only: whatever was asked before - the same
+/// parameters with another hash function, other parameters, the other estimate - the answer is the same. Run on one
+/// thread so that consecutive calls really are consecutive.
+fn estimator_histories(run: &Run, template: &Proof) {
+    run.seq("histories", run.size(3_000, 60_000), |_i, rng, st| {
+        let p = rand_params(rng);
+        let pr = proof_for(&p, template);
+        let other = proof_for(&rand_params(rng), template);
+        let mut first: std::collections::BTreeMap<u32, (u32, u32)> = std::collections::BTreeMap::new();
+        let len = rng.range(4, 12);
+        let mut hist: Vec<String> = Vec::new();
+        for _ in 0..len {
+            // now and then something else is asked in between
+            match rng.below(5) {
+                0 => {
+                    let _ = both_cr(&other, *rng.pick(&CRS));
+                    hist.push("other-parameters".into());
+                },
+                1 => {
+                    let _ = conj_cr(&pr, *rng.pick(&CRS));
+                    hist.push("conjectured-only".into());
+                },
+                _ => {},
+            }
+            let cr = *rng.pick(&CRS);
+            let got = both_cr(&pr, cr);
+            hist.push(format!("cr={cr} -> {got:?}"));
+            let (lo, hi) = (proven_ref(&p, cr, -1e-6), proven_ref(&p, cr, 1e-6));
+            let want_c = conjectured_ref(&p, cr);
+            let bad = got.0 != want_c || (got.1 as u64) < lo.min(hi) || (got.1 as u64) > lo.max(hi) || got.1 > cr;
+            let e = *first.entry(cr).or_insert(got);
+            if bad || e != got {
+                st.violation(
+                    if e != got { "estimate-depends-on-earlier-calls" } else { "estimate-after-history-differs-from-documented-bound" },
+                    J::obj(vec![("params", pj(&p)), ("collision_resistance", J::i(cr)), ("got(conjectured,proven)", J::s(format!("{got:?}"))), ("first_answer", J::s(format!("{e:?}"))), ("reference(conjectured, proven window)", J::s(format!("{want_c}, {lo}..{hi}"))), ("history", J::arr_s(&hist.iter().map(|x| x.as_str()).collect::<Vec<_>>()))]),
+                );
+                break;
+            }
+            st.evals += 1;
+            st.count("histories.calls");
+        }
+        st.distinct.insert(wfv::fnv(format!("h{:?}", p).as_bytes()));
+        st.sample("estimator-history", || J::obj(vec![("params", pj(&p)), ("history", J::arr_s(&hist.iter().map(|x| x.as_str()).collect::<Vec<_>>()))]));
+    });
+}
+
 fn policy_for<H: Hasher>(st: &mut State, rng: &mut Rng, pr: &Proof, p: &P, hname: &str) {
     let lc = pr.security_level::<H>(true);
     let lp = pr.security_level::<H>(false);
@@ -416,16 +463,17 @@ fn main() {
     let template = Proof::new_dummy();
     conjectured_grid(&run, &template);
     proven_sample(&run, &template);
+    estimator_histories(&run, &template);
     policy(&run, &template);
     let exhaustive = true;
     run.finish(Finish {
-        rule: "conjectured estimate: grid queries 1..255 x blowup 2..128 x grinding 0..32 x extension degree 1..3 x log2(trace length) 3..32 (LDE domain <= 2^31, the limit a proof context admits) x field bits {62,64,128} x collision resistance {96,97,110,124,127,128}: equals the integer re-implementation of the documented formula, monotone to the adjacent grid point in queries/grinding/extension/collision resistance; proven estimate: random parameter sets with the same four monotonicity directions, independence from FRI layout; policy: thresholds level-1/level/level+1 for both estimates and option sets with/without the proof's options, all six hashers + stub hashers. distinct = distinct parameter set".into(),
+        rule: "conjectured estimate: grid queries 1..255 x blowup 2..128 x grinding 0..32 x extension degree 1..3 x log2(trace length) 3..32 (LDE domain <= 2^31, the limit a proof context admits) x field bits {62,64,128} x collision resistance {96,97,110,124,127,128}: equals the integer re-implementation of the documented formula, monotone to the adjacent grid point in queries/grinding/extension/collision resistance; proven estimate: random parameter sets with the same four monotonicity directions, independence from FRI layout, comparison with a transcription of the documented bound; single-threaded call histories (the same parameters asked with the six collision resistances in random order, other parameters and the other estimate in between: every answer equals the first answer and the reference); policy: thresholds level-1/level/level+1 for both estimates and option sets with/without the proof's options, all six hashers + stub hashers. distinct = distinct parameter set".into(),
         assumptions: vec![
             "proof contexts are decoded from hand-built bytes (Context::read_from) so that any field and trace lengths up to 2^32 are reachable without running a prover".into(),
             "policy is exercised through AcceptableOptions::validate, the function verify() calls first; end-to-end verify with thresholds is part of C01/C02 shapes".into(),
         ],
         exhaustive,
-        require: vec![("conjectured.grid_points".into(), 100_000), ("proven.monotonicity_pairs".into(), 1000), ("proven.nonzero_levels".into(), 100), ("policy.proofs".into(), 500), ("constants.checked".into(), 1)],
+        require: vec![("conjectured.grid_points".into(), 100_000), ("proven.monotonicity_pairs".into(), 1000), ("proven.nonzero_levels".into(), 100), ("histories.calls".into(), 1000), ("policy.proofs".into(), 500), ("constants.checked".into(), 1)],
         extra: vec![],
     });
 }
